@@ -236,6 +236,47 @@ theorem proposers_eq_spec_partial {H cfg vals} (mixes : Nat → ByteArray) (epoc
     rw [← this]; exact hsp
   · rw [hm] at this; cases this
 
+
+/-! ## full strength under a balance hypothesis
+
+`HasMaxBalance cfg vals active`: some active validator has `effective_balance ≥ MAX_EFFECTIVE_BALANCE` (true of every
+live network: it is the normal balance). Such a validator is accepted whatever the random byte, and the shuffling
+visits every active validator once in any `n` consecutive candidates — so both sampling loops terminate. -/
+
+/-- **`ComputeProposerIndex` = `compute_proposer_index`** (no `_partial`): with an active validator at the maximum
+effective balance and at most 32 000 active validators the implementation returns — the cut-off is not reached —
+and its value is what the specification's loop stops at (given any fuel ≥ 32 000). For more than 32 000 active
+validators the cut-off divergence of `proposer_eq_spec_partial` remains (the max-balance validator may come later
+than candidate 32 000). -/
+theorem proposer_eq_spec {H cfg vals active} (ok : SampleOK H cfg vals active)
+    (hm : HasMaxBalance cfg vals active) (hsmall : active.size ≤ 32000) (seed : ByteArray) :
+    ∃ c, computeProposerIndex H cfg vals active seed = .ok c ∧
+      ∀ extraFuel, Spec.compute_proposer_index H cfg vals.toList active.toList seed (32000 + extraFuel) 0 = .ok c :=
+  computeProposerIndex_total ok hm hsmall seed
+
+/-- **`ComputeSyncCommitteeIndices` = `get_next_sync_committee_indices`, with termination**: under the same balance
+hypothesis both loops finish within `SYNC_COMMITTEE_SIZE · n + 1` iterations, return exactly
+`SYNC_COMMITTEE_SIZE` indices, and the same ones. -/
+theorem syncIndices_eq_spec {H cfg vals} (mixes : Nat → ByteArray) (slot : Nat)
+    (ok : SampleOK H cfg vals (activeIndices vals (slot / cfg.SLOTS_PER_EPOCH + 1)))
+    (hm : HasMaxBalance cfg vals (activeIndices vals (slot / cfg.SLOTS_PER_EPOCH + 1)))
+    (fuel : Nat) (hf : cfg.SYNC_COMMITTEE_SIZE * (activeIndices vals (slot / cfg.SLOTS_PER_EPOCH + 1)).size + 1 ≤ fuel) :
+    ∃ l, Spec.get_next_sync_committee_indices H cfg vals.toList mixes slot fuel = .ok l ∧
+      l.length = cfg.SYNC_COMMITTEE_SIZE ∧
+      computeSyncCommitteeIndices H cfg vals mixes slot (slot / cfg.SLOTS_PER_EPOCH + 1)
+        (activeIndices vals (slot / cfg.SLOTS_PER_EPOCH + 1)) fuel = .ok l.toArray := by
+  have hp := syncIndices_eq_spec_partial mixes slot ok fuel
+  obtain ⟨l, hl, hlen⟩ := sync_loop_terminates ok hm
+    (getSeed H cfg mixes (slot / cfg.SLOTS_PER_EPOCH + 1) DOMAIN_SYNC_COMMITTEE) cfg.SYNC_COMMITTEE_SIZE [] 0 fuel
+    (by simp) hf
+  have hs : Spec.get_next_sync_committee_indices H cfg vals.toList mixes slot fuel = .ok l := by
+    unfold Spec.get_next_sync_committee_indices
+    simp only []
+    rw [← Zrnt.Proofs.Committees.activeIndices_eq_spec, ← getSeed_eq_spec]
+    exact hl
+  refine ⟨l, hs, hlen (by simp), ?_⟩
+  rw [hp, hs]; rfl
+
 /-! ## the `EpochsContext` lookups -/
 
 /-- what `NewEpochsContext` holds when it succeeds: the three shufflings are `ComputeShufflingEpoch` of the
@@ -432,6 +473,7 @@ example : CfgOK cfgMin := ⟨by decide, by decide, by decide, by decide, by deci
 example : activeIndices vals3 5 = #[0, 2] := by decide
 example : SampleOK zeroHash cfgMin vals3 (activeIndices vals3 5) :=
   ⟨fun _ => rfl, by decide, by decide, by decide, by decide⟩
+example : HasMaxBalance cfgMin vals3 (activeIndices vals3 5) := ⟨0, by decide, by decide, by decide⟩
 example : (goSpec cfgMin).SLOTS_PER_EPOCH ≠ 0 ∧ (goSpec cfgMin).TARGET_COMMITTEE_SIZE ≠ 0 := by decide
 -- 37 validators in 8·1 committees: sizes 4 and 5 only, boundaries 0 … 37
 example : (List.range 9).map (bound 37 8) = [0, 4, 9, 13, 18, 23, 27, 32, 37] := by decide
